@@ -14,7 +14,8 @@
 //	      (EPOLLOUT) and the openwrite calls are issued inside the connected callback.
 //	O write <payload> K=<k>
 //	O writev <m> <payload>*m K=<k>
-//	O sendfile <off> <len> K=<k,k,…>           file = pattern file of fsize bytes positioned at off
+//	O sendfile <off> <len> K=<k,k,…> [dup=0]   file = pattern file of fsize bytes positioned at off;
+//	                                           dup=0: dup(2) of the file descriptor fails (EMFILE)
 //	O event <bits o|i|e…> K=<k,k,…> [cb=<call>]  epoll event (only the parts the kernel could deliver in
 //	      the current registration state are delivered); K answers the flush; cb is a call issued
 //	      from the OnData callback while the event is handled
@@ -103,6 +104,7 @@ type call struct {
 	payloads []string
 	off, ln  int
 	ks       []string
+	nodup    bool // sendfile: dup(2) of the source descriptor fails (EMFILE)
 }
 
 func parseCall(f []string) (*call, error) {
@@ -115,6 +117,8 @@ func parseCall(f []string) (*call, error) {
 	for _, t := range f[1:] {
 		if strings.HasPrefix(t, "K=") {
 			kstr = t[2:]
+		} else if t == "dup=0" {
+			c.nodup = true
 		} else if !strings.Contains(t, "=") {
 			rest = append(rest, t)
 		}
@@ -300,6 +304,20 @@ func (s *sim) sendfile(off, ln int, ks []string) {
 	}
 	if rem > 0 {
 		s.items = append(s.items, simItem{file: true, off: off, rem: rem})
+	}
+}
+
+// sendfileNoDup: dup(2) fails. Behind a backlog nothing happens; on the direct path the first refused
+// request (EAGAIN or the exhausted script) is fatal.
+func (s *sim) sendfileNoDup(off, ln int, ks []string) {
+	if s.closed || s.rng(off, ln) == 0 || len(s.items) > 0 {
+		return
+	}
+	n := len(s.items)
+	s.sendfile(off, ln, ks)
+	if !s.closed && len(s.items) > n {
+		s.items = s.items[:n]
+		s.kill()
 	}
 }
 func (s *sim) headReq() int {
@@ -514,12 +532,18 @@ func genCall(g *lp.Gen, s *sim, inOpen bool) string {
 			}
 			left -= kn(k, c)
 		}
-		s.sendfile(off, ln, ks)
+		dupS := ""
+		if !inOpen && g.Chance(1, 8) { // dup(2) of the file descriptor fails
+			dupS = " dup=0"
+			s.sendfileNoDup(off, ln, ks)
+		} else {
+			s.sendfile(off, ln, ks)
+		}
 		kstr := "-"
 		if len(ks) > 0 {
 			kstr = strings.Join(ks, ",")
 		}
-		return fmt.Sprintf("sendfile %d %d K=%s", off, ln, kstr)
+		return fmt.Sprintf("sendfile %d %d K=%s%s", off, ln, kstr, dupS)
 	}
 }
 
@@ -833,7 +857,11 @@ func (cs *caseState) doCall(cl *call) string {
 		if _, e := cs.file.Seek(int64(cl.off), 0); e != nil {
 			panic(e)
 		}
+		if cl.nodup {
+			vsys.DupHook = func(int) syscall.Errno { return syscall.EMFILE }
+		}
 		n, cerr = cs.c.Sendfile(cs.file, int64(cl.ln))
+		vsys.DupHook = nil
 	}
 	cs.v.Lock()
 	used := len(ans) - len(cs.v.Script)
@@ -881,7 +909,7 @@ func (cs *caseState) doCall(cl *call) string {
 	}
 	fits := cs.maxwb == 0 || pre.Left+held <= cs.maxwb
 	if !pre.Closed {
-		if fits && !fatalAns && cerr != nil {
+		if fits && !fatalAns && cerr != nil && !(cl.nodup && errors.Is(cerr, syscall.EMFILE)) {
 			orc("c17-fits", "%s of %d bytes fits (left=%d maxwb=%d) but failed with %v", cl.kind, held, pre.Left, cs.maxwb, cerr)
 		}
 		if errors.Is(cerr, nbio.ErrOverflow) && (fits || !post.Closed) {
@@ -906,6 +934,9 @@ func (cs *caseState) doCall(cl *call) string {
 		}
 	}
 	ex.Count("calls", cl.kind)
+	if cl.nodup {
+		ex.Count("faults", "dup:"+errName(cerr))
+	}
 	ex.Count("results", cl.kind+":"+errName(cerr))
 	for _, a := range ans[:used] {
 		switch {
@@ -948,6 +979,9 @@ func (cs *caseState) state() string {
 		for i := 0; i < 30000 && atomic.LoadInt64(&cs.closes) == 0; i++ {
 			time.Sleep(100 * time.Microsecond)
 		}
+		// the flag is set before the teardown (another goroutine: timer, poller) releases the queue:
+		// look again once the close notification has been seen (the queue is released before it)
+		st = cs.c.VerifWriteState(true)
 	}
 	cs.v.Lock()
 	wire := cs.v.Wire
